@@ -66,6 +66,12 @@ M = [
     ("stv-one-by-one-tie-silently-random-after-round-1", "votekit/elections/election_types/ranking/stv.py",
      "            ranking_by_fpv, m=1, profile=profile, tiebreak=self.tiebreak\n",
      "            ranking_by_fpv, m=1, profile=profile, tiebreak=self.tiebreak if prev_state.round_number == 0 else (self.tiebreak or \"random\")\n", ["C02"]),
+    ("alaska-stv-stage-ignores-transfer-option", "votekit/elections/election_types/ranking/alaska.py",
+     "                profile,\n                self.m_2,\n                self.transfer,",
+     "                profile,\n                self.m_2,\n                fractional_transfer,", ["C13"]),
+    ("alaska-replay-ignores-transfer-option", "votekit/elections/election_types/ranking/alaska.py",
+     "                self.get_profile(1),  # plurality profile\n                self.m_2,\n                self.transfer,",
+     "                self.get_profile(1),  # plurality profile\n                self.m_2,\n                fractional_transfer,", ["C09"]),
     ("load-csv-dropna", "votekit/cvr_loaders.py", "df.groupby(ranks, dropna=False)", "df.groupby(ranks, dropna=True)", ["C18"]),
     ("lp-root-omitted", "votekit/metrics/distances.py", "lp_dist = sum ** (1 / p_value)", "lp_dist = sum", ["C19"]),
     ("stv-m-bound-off-by-one", "votekit/elections/election_types/ranking/stv.py",
